@@ -5,11 +5,11 @@ CONSTANTS
  Dur = 1
  FailSet = {}
  MaxTime = 4
- Waits <- W1
- CancelOf <- CancelT
+ Waits <- NoWaits
+ CancelOf <- NoCancel
  Foreign = FALSE
- KindOf <- AllCalls
- LoadOf <- NoLoad
+ KindOf <- K_cae
+ LoadOf <- L_cae
  ClearInputs = TRUE
 INVARIANT Inv_C03
 INVARIANT Inv_C07
